@@ -244,15 +244,18 @@ func (a *BigInt) M__truediv__(other Object) (Object, error) {
 	if b, ok := ConvertToBigInt(other); ok {
 		return bigIntTrueDiv((*big.Int)(a), (*big.Int)(b))
 	}
-	b, err := MakeFloat(other)
+	fb, ok, err := floatOperand(other)
 	if err != nil {
 		return nil, err
+	}
+	if !ok {
+		// not a real number: let the other operand do the division
+		return NotImplemented, nil
 	}
 	fa, err := a.Float()
 	if err != nil {
 		return nil, err
 	}
-	fb := b.(Float)
 	if fb == 0 {
 		return nil, divisionByZero
 	}
@@ -263,15 +266,18 @@ func (a *BigInt) M__rtruediv__(other Object) (Object, error) {
 	if b, ok := ConvertToBigInt(other); ok {
 		return bigIntTrueDiv((*big.Int)(b), (*big.Int)(a))
 	}
-	b, err := MakeFloat(other)
+	fb, ok, err := floatOperand(other)
 	if err != nil {
 		return nil, err
+	}
+	if !ok {
+		// not a real number: let the other operand do the division
+		return NotImplemented, nil
 	}
 	fa, err := a.Float()
 	if err != nil {
 		return nil, err
 	}
-	fb := b.(Float)
 	if fa == 0 {
 		return nil, divisionByZero
 	}
